@@ -134,7 +134,15 @@ func InitReload(cPath string, fParseAndRun func([]string) error) error {
 }
 
 func checkReload() error {
-	return parseConfigForReload(configPath, true)
+	err := parseConfigForReload(configPath, true)
+	if err != nil {
+		// a refused reload must not leave items marked as seen: the next reload would not notice that they were removed
+		for k := range cfgNotReloadable {
+			cfgNotReloadable[k] = false
+		}
+	}
+
+	return err
 }
 
 func (t *ReloadCommandType) InitFromString(_ string) (ControlCommand, error) {
